@@ -1067,7 +1067,8 @@ class Builtins:
         f = args[0] if args else kwargs.get("file", NONE)
         mode = args[1] if len(args) > 1 else kwargs.get("mode", Str.lit("r"))
         I.run.event("open", file=f, mode=mode, node=node, func=(fr.func.qualname if fr and fr.func else ""))
-        return Unknown(I.run.new_tag("file"), {"file_of": f, "mode": mode, "truthy": True, "not_none": True})
+        return Unknown(I.run.new_tag("file"), {"file_of": f, "mode": mode, "truthy": True, "not_none": True,
+                                               "expr": f"open({I.expr_of(f)})"})
 
     def x_min(self, args, kwargs, node, fr) -> Value:
         if all(isinstance(a, IntV) for a in args) and len(args) > 1:
